@@ -34,7 +34,9 @@ DecodeActs(m, g, o) ==        \* genes g[o+1 ..]
              biasq |-> IF kind = "position" THEN RNeg(gain) ELSE RZero,       \* biasprm[1] = -kp
              biasqd |-> IF kind = "velocity" THEN RNeg(gain) ELSE RZero,      \* biasprm[2] = -kv
              ctrlrange |-> CtrlRanges[(g[b + 5] % 4) + 1],
-             forcerange |-> ForceRanges[(g[b + 6] % 5) + 1]]]
+             forcerange |-> ForceRanges[(g[b + 6] % 5) + 1],
+             \* an unlimited actuator may still carry a (disabled) range attribute in the document
+             stale |-> g[b + 7] % 3 = 0]]
 
 \* state: ctrl per actuator (halves in [-3, 3]), q and qd per 1-dof joint (halves in [-2, 2])
 DecodeState(m, a, g, o) ==
